@@ -243,6 +243,7 @@ def publish(w):
     c = Rec()
     r.register_client(c)
     d = Dev(router=r)
+    r.process_message(M.EnableBLOB(device="DEV", value="Also"), sender=c)
     probs = []
 
     def roundtrip_all(tag):
@@ -284,6 +285,10 @@ def publish(w):
         d.main.number.state_ = "Busy"
     except Exception as e:
         return {"reproduced": True, "detail": "a run-time update raised %r" % (e,)}
+    d.main.blob.b.value = values.BLOB(b"", ".fits")
+    last = [m for m in c.got if isinstance(m, M.SetVector) and m.name == "BLOB"][-1].children[0]
+    if (last.format, int(last.size), last.value or "") != (".fits", 0, ""):
+        probs.append("an empty BLOB with format .fits was published with format %r size %r" % (last.format, last.size))
     busy = [m for m in c.got if isinstance(m, M.SetVector) and m.name == "NUMBER"]
     if not busy or busy[-1].state != "Busy":
         probs.append("state change not published")
